@@ -57,6 +57,7 @@ fn main() {
         "C07" => run_property(props::c07_parent_ready::C07, run_args),
         "C08" => run_property(props::c08_finality::C08, run_args),
         "C09" => run_property(props::c09_admission::C09, run_args),
+        "C10" => run_property(props::c10_hostile::C10, run_args),
         "C11" => run_property(props::c11_erasure::C11, run_args),
         "C12" => run_property(props::c12_shred_binding::C12, run_args),
         "C13" => run_property(props::c13_blockstore::C13, run_args),
